@@ -496,6 +496,8 @@ def oracle(ctx):
     # queues, Builder.finalize and clean.clean() on projects grown through the Workflow API, the real serve()
     co.run_families(ctx, ctx.scale(40, 400), ctx.scale(20, 200), ctx.scale(20, 200), c06=True,
                     res=getattr(ctx, "own_cases", None))
+    # a directory on the way to an output replaced by a link to the user's copy of the results (directed, every run)
+    co.run_parent_links(ctx)
     if not getattr(ctx, "phases_judged", False):
         co.judge_phases(ctx, co.generate_phases(ctx, ctx.scale(6, 60)))
     if cc.e3_available():
